@@ -1,0 +1,11 @@
+//go:build !verif
+
+package grpctunnel
+
+// verifYield is a no-op unless the package is built with the "verif" tag.
+func verifYield(string) {}
+
+// verifTrackServer is a no-op unless the package is built with the "verif" tag.
+func verifTrackServer(*tunnelServer) func() { return verifNoop }
+
+func verifNoop() {}
